@@ -31,6 +31,9 @@ Lemma nth_map_lt {A B} (F : A -> B) l i da db : (i < length l)%nat -> nth i (map
 Proof. intros H. rewrite (nth_indep _ db (F da)) by (rewrite map_length; lia). apply map_nth. Qed.
 Lemma nth_tl {A} (l : list A) i d : nth i (tl l) d = nth (S i) l d.
 Proof. destruct l; [destruct i; reflexivity | reflexivity]. Qed.
+Lemma nth_firstn_lt {A} (d : A) : forall k (l : list A) i, (i < k)%nat -> nth i (firstn k l) d = nth i l d.
+Proof. induction k as [|k IH]; intros l i Hi; [lia|]. destruct l as [|x l]; [reflexivity|].
+  destruct i as [|i']; [reflexivity|]. cbn [firstn nth]. apply IH. lia. Qed.
 Lemma hd_nth0 {A} (l : list A) d : hd d l = nth 0 l d.
 Proof. destruct l; reflexivity. Qed.
 
@@ -206,7 +209,9 @@ Proof. unfold row_step. cbn [fst snd]. rewrite !map_length, seq_length. split; r
 Lemma row_step_nth pick t next i : (i < n)%nat ->
   nth i (fst (row_step_ pick t next)) 0 = fst (pick t (Hrow_ t next) i) /\
   nth i (snd (row_step_ pick t next)) 0%Z = snd (pick t (Hrow_ t next) i).
-Proof. intros H. unfold row_step. cbn [fst snd]. rewrite !map_map. split; apply nth_map_seq; exact H. Qed.
+Proof. intros H. unfold row_step. cbn [fst snd]. rewrite !map_map. split.
+  - apply (nth_map_seq (fun x => fst (pick t (Hrow_ t next) x))). exact H.
+  - apply (nth_map_seq (fun x => snd (pick t (Hrow_ t next) x))). exact H. Qed.
 
 (* ---- the table ---- *)
 Section BuildP.
@@ -354,7 +359,7 @@ Proof. apply sS_generic. Qed.
 Lemma row_step_eval_eq um t next : um t = snd (row_step_ pick_opt_ t next) ->
   row_step_ (pick_eval_ um) t next = row_step_ pick_opt_ t next.
 Proof.
-  intros Hum. unfold row_step at 1 3. f_equal; f_equal; apply map_ext_in; intros i Hi; apply in_seq in Hi.
+  intros Hum. unfold row_step. cbv zeta. f_equal; f_equal; apply map_ext_in; intros i Hi; apply in_seq in Hi.
   all: assert (Hi' : (i < n)%nat) by lia.
   all: unfold pick_eval; rewrite Hum; rewrite (proj2 (row_step_nth pick_opt_ t next i Hi')).
   all: destruct (pick_opt_spec t (Hrow_ t next) i Hi') as (j0 & _ & Es & Ef & _); cbv zeta in Ef.
@@ -398,8 +403,10 @@ Proof.
       pose proof (fold_max_bounds r v xmin xmax_ Hv Hr). pose proof (fold_min_bounds r v xmin xmax_ Hv Hr).
       apply andb_true_intro; split; apply andb_true_intro; split; apply Z.leb_le; lia. }
   rewrite Hg.
-  rewrite (build_eval_eq (fun t => nth t (repeat 0%Z n :: fh_oul o) [])) by
-    (try lia; intros k Hk; destruct (T - k)%nat as [|t'] eqn:Et; [lia|]; cbn [nth]; rewrite Hoo, build_nth_oul by lia; f_equal; lia).
+  assert (Hum : forall k, (k < T)%nat -> (fun t => nth t (repeat 0%Z n :: fh_oul o) []) (T - k)%nat = orow_at pick_opt_ k).
+  { intros k Hk. cbv beta. destruct (T - k)%nat as [|t'] eqn:Et; [lia|]. cbn [nth].
+    rewrite Hoo, build_nth_oul by lia. f_equal. lia. }
+  rewrite (build_eval_eq _ Hum T (le_n T)).
   rewrite (fh_finish_of_none false) by (apply first_event_weaken; exact Hev).
   rewrite Eo. reflexivity.
 Qed.
@@ -533,7 +540,7 @@ Proof.
   destruct (in_oulrow _ _ Hr) as (t & Ht & ->). exists t.
   unfold row_abort in Hab. apply existsb_exists in Hab. destruct Hab as (v & Hv & Ev). apply Z.eqb_eq in Ev. subst v.
   destruct (In_nth _ _ 0%Z Hv) as (i & Hi & Ei). rewrite firstn_length in Hi. exists i. split; [exact Ht|]. split; [lia|].
-  rewrite <- Ei. rewrite nth_firstn. destruct (Nat.ltb_spec i (n - 1)); [reflexivity|lia].
+  rewrite <- Ei. symmetry. apply nth_firstn_lt. lia.
 Qed.
 
 Theorem no_abort_spec o t i : fh_opt_ = FHOk o -> (1 <= t <= T)%nat -> (i < n - 1)%nat -> oul_ o t i <> xmax_.
@@ -544,8 +551,7 @@ Proof.
   assert (Hex : existsb (fun v => (v =? xmax_)%Z) (firstn (n - 1) (oulrow pick_opt_ t)) = true).
   { apply existsb_exists. exists xmax_. split; [|apply Z.eqb_refl].
     unfold oul_, out_of in E. cbn [fh_oul] in E. fold (oulrow pick_opt_ t) in E. rewrite <- E.
-    rewrite <- (nth_firstn (n - 1) (oulrow pick_opt_ t) i 0%Z) at 1.
-    destruct (Nat.ltb_spec i (n - 1)); [|lia].
+    rewrite <- (nth_firstn_lt 0%Z (n - 1) (oulrow pick_opt_ t) i Hi).
     apply nth_In. rewrite firstn_length, (proj1 (oulrow_len pick_opt_ t Ht)). lia. }
   congruence.
 Qed.
